@@ -402,7 +402,7 @@ func c28(r *core.Run) {
 			return nil
 		}
 		p := f.Params[len(f.Params)-1]
-		if p.Name() == "skips" && strings.HasSuffix(p.Type().String(), "boson.Address") {
+		if strings.HasSuffix(p.Type().String(), "boson.Address") { // the variadic address list: the skip list
 			return p
 		}
 		return nil
